@@ -129,8 +129,11 @@ fn start_states(max_addr: u8, max_down: usize, ops: usize, words: &[u32]) -> Res
             let downs = v.members.iter().filter(|m| m.state() == State::Down).count();
             if downs < max_down {
                 for m in v.members.iter().filter(|m| m.state() != State::Down) {
-                    for (_, _, c) in all_runs(f, &Ev::Apply(vec![Member::new(*m.id(), 0, State::Down)], true), words) {
-                        succ.push(c);
+                    // (the incarnation next to Down must not matter)
+                    for inc in [0u16, 3] {
+                        for (_, _, c) in all_runs(f, &Ev::Apply(vec![Member::new(*m.id(), inc, State::Down)], true), words) {
+                            succ.push(c);
+                        }
                     }
                 }
             }
